@@ -58,8 +58,32 @@ pub fn derive(input: &Input) -> TokenStream {
     ).collect::<Vec<_>>();
 
     let to_owned = input.map_fields_nested_or(
-        |ident, _| quote! { self.#ident.to_owned() },
+        |ident, field_type| quote! { <#field_type as ::std::convert::From<_>>::from(self.#ident) },
         |ident, _| quote! { self.#ident.clone() },
+    ).collect::<Vec<_>>();
+
+    let mut_to_owned = input.map_fields_nested_or(
+        |ident, field_type| quote! { <#field_type as ::std::convert::From<_>>::from(&self.#ident) },
+        |ident, _| quote! { self.#ident.clone() },
+    ).collect::<Vec<_>>();
+
+    // `to_owned` is only available if every field can be cloned: a plain field
+    // must be `Clone`, a nested field must be convertible from its reference
+    // type (which in turn asks the same of the nested struct's fields)
+    let ref_clone_bounds = input.map_fields_nested_or(
+        |_, field_type| {
+            let field_ref_type = names::ref_name(field_type);
+            quote! { for<'b> #field_type: ::std::convert::From<#field_ref_type<'b>> }
+        },
+        |_, field_type| quote! { for<'b> #field_type: Clone },
+    ).collect::<Vec<_>>();
+
+    let ref_mut_clone_bounds = input.map_fields_nested_or(
+        |_, field_type| {
+            let field_ref_mut_type = names::ref_mut_name(field_type);
+            quote! { for<'b> #field_type: ::std::convert::From<&'b #field_ref_mut_type<'b>> }
+        },
+        |_, field_type| quote! { for<'b> #field_type: Clone },
     ).collect::<Vec<_>>();
 
     let ref_replace = input.map_fields_nested_or(
@@ -134,7 +158,7 @@ pub fn derive(input: &Input) -> TokenStream {
             pub fn to_owned(&self) -> #name
                 // only expose to_owned if all fields are Clone
                 // https://github.com/rust-lang/rust/issues/48214#issuecomment-1150463333
-                where #( for<'b> #fields_types: Clone, )*
+                where #( #ref_clone_bounds, )*
             {
                 #name {
                     #( #fields_names: #to_owned, )*
@@ -142,13 +166,13 @@ pub fn derive(input: &Input) -> TokenStream {
             }
         }
 
-        impl<'a>  From<#ref_name<'a>> for #name where #( for<'b> #fields_types: Clone, )* {
+        impl<'a>  From<#ref_name<'a>> for #name where #( #ref_clone_bounds, )* {
             fn from(value: #ref_name<'a>) -> #name {
                 value.to_owned()
             }
         }
 
-        impl<'a>  From<&'a #ref_name<'a>> for #name where #( for<'b> #fields_types: Clone, )* {
+        impl<'a>  From<&'a #ref_name<'a>> for #name where #( #ref_clone_bounds, )* {
             fn from(value: &'a #ref_name<'a>) -> #name {
                 value.to_owned()
             }
@@ -162,10 +186,10 @@ pub fn derive(input: &Input) -> TokenStream {
             pub fn to_owned(&self) -> #name
                 // only expose to_owned if all fields are Clone
                 // https://github.com/rust-lang/rust/issues/48214#issuecomment-1150463333
-                where #( for<'b> #fields_types: Clone, )*
+                where #( #ref_mut_clone_bounds, )*
             {
                 #name {
-                    #( #fields_names: #to_owned, )*
+                    #( #fields_names: #mut_to_owned, )*
                 }
             }
 
@@ -184,13 +208,13 @@ pub fn derive(input: &Input) -> TokenStream {
             }
         }
 
-        impl<'a>  From<#ref_mut_name<'a>> for #name where #( for<'b> #fields_types: Clone, )* {
+        impl<'a>  From<#ref_mut_name<'a>> for #name where #( #ref_mut_clone_bounds, )* {
             fn from(value: #ref_mut_name<'a>) -> #name {
                 value.to_owned()
             }
         }
 
-        impl<'a>  From<&'a #ref_mut_name<'a>> for #name where #( for<'b> #fields_types: Clone, )* {
+        impl<'a>  From<&'a #ref_mut_name<'a>> for #name where #( #ref_mut_clone_bounds, )* {
             fn from(value: &'a #ref_mut_name<'a>) -> #name {
                 value.to_owned()
             }
